@@ -126,6 +126,32 @@ def gen_cases(tier):
     return cases
 
 
+def run_reuse(case):
+    """one Delete OBJECT applied to a sequence of targets of different kinds; each application must equal a fresh Delete"""
+    path, ignore, targets = case
+    mk_t = {'dict': lambda: {'a': {'0': 'x', 'k': 1}}, 'list': lambda: {'a': [10, 20]}, 'obj': lambda: {'a': MR.Obj(k=1)}, 'none': lambda: {'a': None},
+            'dict2': lambda: {'a': {'k': 2, '1': 'y'}}}
+    shared = Delete(path, ignore_missing=ignore)
+    for i, tn in enumerate(targets):
+        outs = []
+        for spec in (Delete(path, ignore_missing=ignore), shared):
+            t = mk_t[tn]()
+            try:
+                glom(t, spec)
+                outs.append(('ok', MR.canon(t)))
+            except Exception as e:
+                outs.append(('err', type(e).__name__, MR.canon(t)))
+        if outs[0] != outs[1]:
+            return R({'expected': 'application #%d of the re-used Delete equals a fresh Delete: %r' % (i + 1, outs[0]), 'observed': repr(outs[1]),
+                      'path': path, 'ignore_missing': ignore, 'targets': targets}, 'reuse')
+    return R(None, 'ok', steps=len(targets), tags={'reuse'})
+
+
+def gen_reuse(tier):
+    names = ['dict', 'list', 'obj', 'none', 'dict2']
+    return [[path, ignore, list(seq)] for path in ('a.0', 'a.k', 'a.1') for ignore in (False, True) for n in (2, 3) for seq in itertools.product(names, repeat=n)]
+
+
 def subs(tier, only=None):
     from ..engine import fast_tracebacks
     from . import c14
@@ -135,6 +161,10 @@ def subs(tier, only=None):
         out.append(Sub('delete', gen_cases(tier), run_case,
                        rule='case = (spine kinds, leaf, path segments, spelling, ignore_missing, function|spec form); compared with plain `del` on a copy',
                        min_nontrivial=5000, min_outcomes=6, required_tags=SPELLINGS + MR.KINDS + ['func', 'spec']))
+    if only in (None, 'delete-reuse'):
+        out.append(Sub('delete-reuse', gen_reuse(tier), run_reuse,
+                       rule='case = (path, ignore_missing, sequence of 2-3 targets whose parent is a dict / list / object / None): ONE Delete object applied to '
+                            'each in turn equals a fresh Delete every time', min_nontrivial=100, min_outcomes=1))
     if only in (None, 'wildcard-delete'):
         out.append(Sub('wildcard-delete', [c for c in c14.gen_mutate(tier) if c[2] == 'delete'], c14.run_mutate,
                        rule='case = (tree-shaped target, path with 1-4 wildcards, function|spec form): deletion at every match against a plain loop (shared with C14)',
